@@ -27,6 +27,75 @@ PLAN = {
         ],
         "require_counters": {"all": ["gcs_that_freed", "audits"]},
     },
+    "C03": {
+        "level": "exploration",
+        "rule": "histories on bdd/bcdd/zbdd in three flavours (reorder-heavy, add_vars/add_named_vars-heavy up to 10 variables, "
+                "capacity-starved with 24..99 node slots so operations fail with OutOfMemory) with the FULL structural audit after "
+                "EVERY step: level of each node, children strictly below, per-kind reduction rule, no duplicate children per level, "
+                "len()/num_inner_nodes() agreement, var<->level maps inverse permutations, then-edge uncomplemented (bcdd), "
+                "node_count == size of the reduced diagram computed from the truth table. Audits also run inside C01/C05/C06/C08/C14. "
+                "distinct = distinct (kind, operation, non-constant result table, #vars).",
+        "assumptions": ["audit only at quiescent points, under the manager's exclusive lock", "DDDMP import audited by the C15 monitor"],
+        "jobs": [
+            {"monitor": "c03_hist", "variant": "rel", "shards": 16},
+            {"monitor": "c03_hist", "variant": "dbg", "shards": 16},
+        ],
+        "require_counters": {"all": ["audits", "failed_operations_oom", "gcs_that_freed"]},
+    },
+    "C05": {
+        "level": "exploration",
+        "rule": "(a) clone/drop/drop-on-other-thread/gc-heavy histories incl. not_owned, not_edge_owned, into_edge/from_edge, "
+                "pick_cube_dd, reordering: after every 5 steps and every gc: ref_count(n) == live handles + stored parent edges "
+                "(+ ZBDD tautology chain) for EVERY stored node; after gc stored == reachable and gc()'s return value == before-after; "
+                "all tables unchanged; after dropping everything + gc the initial node count. (b) managers of 128..400 slots so "
+                "that OxiDD's background collector fires by itself (counted) while operations fail and succeed. (c) capacity probe: "
+                "history in a 30..99-slot manager, drop all, gc, fill until OutOfMemory: stored == capacity (slot conservation). "
+                "distinct = distinct (kind, operation, result table) + distinct probes.",
+        "assumptions": ["reference counts of dynamic terminals are not exposed by the API (checked via num_terminals in the C10 monitor)"],
+        "jobs": [
+            {"monitor": "c05_hist", "variant": "rel", "shards": 16},
+            {"monitor": "c05_hist", "variant": "dbg", "shards": 16},
+            {"monitor": "c05_bg", "variant": "rel", "shards": 16},
+            {"monitor": "c05_probe", "variant": "rel", "shards": 16},
+            {"monitor": "c05_probe", "variant": "dbg", "shards": 8},
+        ],
+        "require_counters": {"all": ["background_gcs_observed", "probes", "gcs_that_freed", "failed_operations_oom"]},
+    },
+    "C06": {
+        "level": "exploration",
+        "rule": "cache-hostile histories (same operands under different operators back-to-back, swapped operands, ite permutations, "
+                "same set under different quantifiers/inner operators, different substitutions of one function, repetition across "
+                "drop+gc+slot reuse / set_var_order / add_vars) replayed on 7 managers: cache capacity {65536 fresh (reference), 1, 2, "
+                "16 fresh; 16, 65536, 1 warmed up with 150 unrelated operations}; every result checked against the truth-table model "
+                "and the per-handle digests (table, node_count, first equal earlier handle) compared across replays. distinct = "
+                "distinct (kind, history, capacity, warm) replays that agreed.",
+        "assumptions": ["MTBDD/TDD operator-key mix-ups are covered by the C10/C11 monitors (different operators on the same operands with tiny caches)"],
+        "jobs": [
+            {"monitor": "c06_diff", "variant": "rel", "shards": 16},
+            {"monitor": "c06_diff", "variant": "dbg", "shards": 8},
+        ],
+        "require_counters": {"all": ["replays", "gcs_that_freed"]},
+    },
+    "C14": {
+        "level": "fault_enumeration",
+        "exhaustive": True,
+        "rule": "for each generated script (5 operand constructions, then apply, ite, not, quantify, apply-quantify, substitute, "
+                "restrict, pick_cube_dd, cofactor, apply) the node capacity c is swept over EVERY value 0..demand+2 (demand = slots "
+                "used by the script in a large manager; < 100 so the background collector is off), 1 thread and 4 threads with "
+                "maximal split depth: no panic/abort, a result is either OutOfMemory or model-correct, after EVERY operation the "
+                "full structural + reference-count audit and all live tables; c >= demand => no failure (1 thread); failed operation "
+                "retried after drop+gc when c >= its measured demand (1 thread). distinct = distinct (kind, script, capacity, "
+                "threads) runs in which at least one OutOfMemory was returned. Separate job: the two operations without error "
+                "channel (ZBDD add_vars, set_var_order) are shown to abort (known findings).",
+        "assumptions": ["host allocator exhaustion is out of scope", "MTBDD terminal capacity and DDDMP import under exhaustion: see C10/C15 monitors",
+                        "with >1 worker free slots are partitioned per thread, so exact capacity bounds are asserted for 1 thread only"],
+        "jobs": [
+            {"monitor": "c14_sweep", "variant": "rel", "shards": 16},
+            {"monitor": "c14_sweep", "variant": "dbg", "shards": 16},
+            {"monitor": "c14_aborts", "variant": "rel", "shards": 2},
+        ],
+        "require_counters": {"all": ["capacities_with_oom", "retries_succeeded"]},
+    },
     "C04": {
         "level": "exploration",
         "exhaustive": True,
@@ -111,6 +180,36 @@ PLAN = {
 HOOK_COMMITS = []
 
 MANIFEST_TEXT = {
+    "C03": {
+        "text": "Held at every quiescent point observed: the complete structural invariant is re-derived from the public "
+                "Manager API after every single step of reorder-, add_vars- and OutOfMemory-rich histories (and at the audit "
+                "points of the C01/C05/C06/C08/C14 monitors), for bdd, bcdd, zbdd; also with OxiDD's debug assertions on.",
+        "design_ref": "DESIGN.md section 4.3 and 5 / C03",
+        "note": "Trusted: audit code, minimal-size model. Nothing is asserted while an operation is in progress.",
+        "technique": "runtime monitoring: invariant hook (structural audit through the public API) after every step of generated histories",
+    },
+    "C05": {
+        "text": "Held at every audit point: exact per-node reference counts, exact collections (stored == reachable, return value), "
+                "unchanged tables across explicit and background collections, slot conservation by a black-box capacity probe.",
+        "design_ref": "DESIGN.md section 4.4, 4.5 and 5 / C05",
+        "note": "Trusted: the harness registry knows every live handle. Background collections are observed, not scheduled.",
+        "technique": "runtime monitoring: reference-count audit + reachability oracle + capacity probe over generated histories",
+    },
+    "C06": {
+        "text": "Held on every replay: identical digests across cache capacities 1..65536 and fresh/warmed managers, every result "
+                "equal to the model, on histories built to provoke key mix-ups and stale entries.",
+        "design_ref": "DESIGN.md section 5 / C06",
+        "note": "A stale entry is visible only if its slot is reused or the result differs: histories drop, collect and rebuild around every collection.",
+        "technique": "runtime monitoring: differential replay across cache configurations + reference-model oracle",
+    },
+    "C14": {
+        "text": "Every node capacity from 0 to demand+2 was the limit in some run of every script, so each allocation site of each "
+                "scripted operation failed at least once; all post-conditions of the property were checked after every operation. "
+                "Two operations without error channel abort the process: recorded as known findings.",
+        "design_ref": "DESIGN.md section 5 / C14",
+        "note": "Capacities < 100 only (background collector off, deterministic).",
+        "technique": "runtime monitoring with fault enumeration: capacity sweep, model + audit oracles after every operation",
+    },
     "C04": {
         "text": "Held on every executed case: exhaustive over 3 variables for the plain quantifiers, restrict and (thorough) "
                 "the combined apply-quantify forms; 17^3 substitution vectors with a reused Subst object; interleaved "
